@@ -24,6 +24,31 @@ func NewCond(l Locker) *Cond { return sync.NewCond(l) }
 
 func OnceFunc(f func()) func() { return sync.OnceFunc(f) }
 
+// OnceValue and OnceValues are built on this package's Once, so a concurrent first call is a
+// scheduling point like any other lock.
+func OnceValue[T any](f func() T) func() T {
+	var (
+		once Once
+		v    T
+	)
+	return func() T {
+		once.Do(func() { v = f() })
+		return v
+	}
+}
+
+func OnceValues[T1, T2 any](f func() (T1, T2)) func() (T1, T2) {
+	var (
+		once Once
+		a    T1
+		b    T2
+	)
+	return func() (T1, T2) {
+		once.Do(func() { a, b = f() })
+		return a, b
+	}
+}
+
 type Mutex struct {
 	real sync.Mutex
 	pad  byte // makes the zero-size case impossible: the address identifies the mutex
